@@ -173,7 +173,10 @@ def n1_task(bx):
             ev.GetInverseImage(np.array([int(math.floor(lo[0])) + 1]))
             lo_arr[...] = lo_arr + 3.0
             up_arr[...] = up_arr - 5.0
-        y = float(ev.GetImage(x)[0])
+        arr = ev.GetImage(x)
+        y = float(arr[0])
+        if i in (0, 1, K // 2, K) and arr.flags.writeable:
+            arr[...] = 777.0       # the caller uses the array it got back as scratch space
         e = lo[0] + x * (up[0] - lo[0])
         tol = 4 * math.ulp(max(abs(lo[0]), abs(up[0])))
         if abs(y - e) > tol:
